@@ -423,6 +423,75 @@ func generate(r *hlib.Rng, n int, tier string) []*Spec {
 			}
 		}
 	}
+	// ---- E2. ownership is per INPUT, not per distinct key / owner / previous transaction ----
+	// Every assignment of owners and carried keys over two Qi keys {A, V} for 2 and 3 inputs (the
+	// carried keys sign, in input order, so only the ownership test stands between the spend and
+	// acceptance), on every path: ProcessQiTx checkSig=true / false and the pool. Expected: accepted
+	// iff every input carries the key of ITS consumed entry. Covers own,own / own,foreign /
+	// foreign,own / same key on entries of two owners / a key repeated after a legitimate first use.
+	{
+		pool2 := [][]byte{qk[0], att[0]}
+		type pathSel struct {
+			path  string
+			check bool
+		}
+		paths := []pathSel{{"proc", true}, {"proc", false}, {"pool", true}}
+		grid := func(k int, sameTx bool) {
+			dens := make([]uint8, k)
+			var outs []QiOut
+			for i := 0; i < k; i++ {
+				dens[i] = 6
+				d := uint8(6)
+				if i == k-1 {
+					d = 5
+				}
+				outs = append(outs, QiOut{d, freshQi()})
+			}
+			total := 1
+			for i := 0; i < k; i++ {
+				total *= len(pool2)
+			}
+			for oc := 0; oc < total; oc++ {
+				for cc := 0; cc < total; cc++ {
+					owners, carry := make([][]byte, k), make([][]byte, k)
+					for i, o, c := 0, oc, cc; i < k; i, o, c = i+1, o/len(pool2), c/len(pool2) {
+						owners[i], carry[i] = pool2[o%len(pool2)], pool2[c%len(pool2)]
+					}
+					for _, p := range paths {
+						push(qiPatternSpec(owners, carry, dens, outs, p.path, p.check, sameTx))
+					}
+				}
+			}
+		}
+		grid(2, false)
+		grid(2, true)
+		grid(3, false)
+		// random: 2..5 inputs, keys and owners drawn from three Qi keys, shared or distinct previous transaction
+		pool3 := [][]byte{qk[0], att[0], qk[1]}
+		for i := 0; i < 12+n; i++ {
+			k := 2 + r.Intn(4)
+			dens := make([]uint8, k)
+			var outs []QiOut
+			owners, carry := make([][]byte, k), make([][]byte, k)
+			honest := r.Chance(25)
+			for j := 0; j < k; j++ {
+				dens[j] = 6
+				d := uint8(6)
+				if j == k-1 {
+					d = 5
+				}
+				outs = append(outs, QiOut{d, freshQi()})
+				owners[j] = pool3[r.Intn(3)]
+				carry[j] = pool3[r.Intn(3)]
+				if honest || r.Chance(50) {
+					carry[j] = owners[j]
+				}
+			}
+			p := paths[r.Intn(3)]
+			push(qiPatternSpec(owners, carry, dens, outs, p.path, p.check, r.Bool()))
+		}
+	}
+
 	// Qi signing bytes
 	for i := 0; i < 4+n/3; i++ {
 		k := 1 + r.Intn(3)
